@@ -41,6 +41,29 @@ def fd_tables():
     obs.append({"name": "lookup-by-numbers-returns-the-class", "ok": not wrong, "witness": {"functions": wrong[:5]}, "detail": "StreamsFunctions.function(s, f) does not return the catalogued class"})
     miss = [k for k in ((0, 1), (1, 99), (99, 1), (127, 255)) if sf.function(*k) is not None]
     obs.append({"name": "lookup-of-uncatalogued-numbers", "ok": not miss, "witness": {"found": miss}, "detail": "an uncatalogued stream/function is found"})
+    # containers are independent: updating one (documented customisation) must not change the catalogue others see
+    from secsgem.secs.functions.base import SecsStreamFunction
+    import secsgem.hsms
+
+    class VendorS01F12(SecsStreamFunction):
+        _stream = 1
+        _function = 12
+        _data_format = "< MDLN >"
+    n_before = len(secs_streams_functions)
+    settings_before = secsgem.hsms.HsmsSettings()
+    custom = StreamsFunctions()
+    custom.update(VendorS01F12)
+    other = StreamsFunctions()
+    settings_after = secsgem.hsms.HsmsSettings()
+    leaked = [n for n, c in (("new container", other), ("existing settings", settings_before.streams_functions), ("new settings", settings_after.streams_functions))
+              if c.function(1, 12) is VendorS01F12]
+    restore = [c for c in secs_streams_functions if c is VendorS01F12]
+    obs.append({"name": "containers-do-not-share-the-catalogue", "ok": not leaked and not restore and len(secs_streams_functions) == n_before and custom.function(1, 12) is VendorS01F12,
+                "witness": {"leaked_into": leaked, "global_list_changed": bool(restore) or len(secs_streams_functions) != n_before},
+                "detail": "StreamsFunctions.update() on one container changed what other containers (or the global catalogue) resolve S1F12 to"})
+    if restore:     # undo the damage for the rest of this process
+        from secsgem.secs.functions import SecsS01F12
+        secs_streams_functions[:] = [SecsS01F12 if c is VendorS01F12 else c for c in secs_streams_functions]
     # name encodes the numbers
     bad = [c.__name__ for c in cat if c.__name__ != f"SecsS{c.stream:02d}F{c.function:02d}"]
     obs.append({"name": "class-name-matches-numbers", "ok": not bad, "witness": {"classes": bad[:5]}, "detail": "class name and stream/function numbers disagree"})
